@@ -1330,3 +1330,76 @@ def eq(a, b):
         return mkbool(z3.simplify(ra.t == rb.t))
     na, nb = _bt(ra.nan), _bt(rb.nan)
     return mkbool(z3.simplify(z3.Or(z3.And(na, nb), z3.And(z3.Not(na), z3.Not(nb), ra.t == rb.t))))
+
+
+# --------------------------------------------------------------------------- #
+# exact complex numbers (pairs of reals) - only for the small exact DFT model (C07)
+
+
+class SCx(Sym):
+    __slots__ = ("re", "im")
+
+    def __init__(self, re, im=0):
+        self.re = re
+        self.im = im
+
+    def __repr__(self):
+        return f"SCx({self.re}, {self.im})"
+
+    @staticmethod
+    def of(x):
+        if isinstance(x, SCx):
+            return x
+        if isinstance(x, complex):
+            return SCx(x.real, x.imag)
+        try:
+            import numpy as _np
+            if isinstance(x, _np.complexfloating):
+                return SCx(builtins.float(x.real), builtins.float(x.imag))
+        except Exception:
+            pass
+        return SCx(x, 0)
+
+    def __add__(self, o):
+        o = SCx.of(o)
+        return SCx(self.re + o.re, self.im + o.im)
+
+    __radd__ = __add__
+
+    def __sub__(self, o):
+        o = SCx.of(o)
+        return SCx(self.re - o.re, self.im - o.im)
+
+    def __rsub__(self, o):
+        return SCx.of(o) - self
+
+    def __mul__(self, o):
+        o = SCx.of(o)
+        return SCx(self.re * o.re - self.im * o.im, self.re * o.im + self.im * o.re)
+
+    __rmul__ = __mul__
+
+    def __truediv__(self, o):
+        if isinstance(o, (SCx, complex)):
+            raise Unsupported("division by a complex value")
+        return SCx(self.re / o, self.im / o)
+
+    def __neg__(self):
+        return SCx(-self.re, -self.im)
+
+    def conj(self):
+        return SCx(self.re, -self.im)
+
+    @property
+    def real(self):
+        return self.re
+
+    @property
+    def imag(self):
+        return self.im
+
+    def __eq__(self, o):
+        o = SCx.of(o)
+        return and_(eq(self.re, o.re), eq(self.im, o.im))
+
+    __hash__ = Sym.__hash__
